@@ -205,6 +205,8 @@ func VerifC06Edge() {
 		body = "var f\nf = func(d, a, b) { if d == 0 { return 1 % z }; return f(d - 1, a, b) + a + b }\nr := f(n, 1, 2)"
 	case 2: // wide array literal
 		body = "r := [" + strings.Repeat("z, ", n) + "1 % z]"
+	case 4: // no locals: the frame limit (1024) is reached long before the value stack limit
+		body = "var f\nc := 0\nf = func() { c++; if c > n { return 1 % z }; return f() + 1 }\nr := f()"
 	case 3: // deep recursion through a Go callback (child VMs)
 		body = "var f\nf = func(d) { if d == 0 { return 1 % z }; return callback(func() { return f(d - 1) }) }\nr := f(n)"
 	}
@@ -216,6 +218,10 @@ func VerifC06Edge() {
 		src = "try {\n" + body + "\nreturn r\n} catch e { return \"caught:\" + e.Name }"
 	case 2:
 		src = "g := func() {\n" + body + "\nreturn r\n}\ntry { return g() } finally { out(\"fin\") }"
+	case 3: // finally inside catch, both in main
+		src = "try {\ntry {\n" + body + "\nreturn r\n} finally { out(\"f1\") }\n} catch e { return \"caught2:\" + e.Name }"
+	case 4: // handler in an intermediate function, which is then called again
+		src = "g := func() {\ntry {\n" + body + "\nreturn r\n} catch e { return \"g-caught:\" + e.Name }\n}\nreturn [g(), g()]"
 	}
 	src = "global (callback)\nparam (n, z)\n" + src
 	bc, err := Compile([]byte("global out; "+src), CompilerOptions{NoOptimize: true})
